@@ -442,6 +442,54 @@ def check_encoding(case, R):
             shutil.rmtree(tmp, ignore_errors=True)
 
 
+DETECT_OFFSETS = [0, 100, 10_000, 65_000, 100_000, 199_000, 199_990, 200_010, 201_000, 262_144, 300_000, 1_000_000]
+
+
+def _detect_doc(offset):
+    """Valid UTF-8 SWC text (a chain) whose first non-ASCII byte lies `offset` bytes into the file (0: in the first line), followed by
+    more rows and a second non-ASCII comment at the very end."""
+    lines, size, i = [], 0, 1
+    if offset == 0:
+        lines.append("# caf\u00e9 first")
+    while size < offset:
+        ln = f"{i} {1 if i == 1 else 3} {i}.5 0 0 1 {i - 1 if i > 1 else -1}"
+        lines.append(ln)
+        size += len(ln) + 1
+        i += 1
+    lines.append("# caf\u00e9 \u00b5m here")
+    for _ in range(3):
+        lines.append(f"{i} {1 if i == 1 else 3} {i}.5 0 0 1 {i - 1 if i > 1 else -1}")
+        i += 1
+    lines.append("# end \u00fc")
+    return "\n".join(lines) + "\n", i - 1
+
+
+def check_detect(case, R):
+    """encoding='detect' on valid UTF-8 text of every size: the option must not turn a readable file into an error, and must not
+    lose or alter a data row, wherever in the file the first non-ASCII byte happens to be (detectors look at a prefix only)."""
+    offset, kind, api = int(case[0]), case[1], case[2]
+    R.state(case)
+    text, n_rows = _detect_doc(offset)
+    raw = text.encode("utf-8")
+    want = reference(text, 0)
+    assert want[0] == "ok" and len(want[1]) == n_rows, "harness: detect document is not valid"
+    opt = (kind, api, True, 0, "detect")
+    ctx = lambda: f"{len(raw)} bytes of valid utf-8, first non-ASCII byte at offset ~{offset}, read with encoding='detect' via {kind}/{api}"  # noqa: E731
+    tmp = tempfile.mkdtemp(prefix="c02-") if kind == "path" else None
+    try:
+        ok, res, _ = do_read(R, opt, raw, tmp, attempt=True)
+        if not R.check(ok, "raises-on-valid", lambda: ctx() + f" raised {res!r}", f"detect:raises:{'late' if offset >= 150_000 else 'early'}-non-ascii:{api}"):
+            return
+        got, got_comments = res
+        compare_table(R, f"detect:{api}", got, expected_table(want[1], True, 0), not api.startswith("read_swc"), ctx)
+        # the TEXT of a comment depends on the detector's guess (a heuristic); their number and order do not
+        R.check(len(got_comments) == len(want[2]), "comments", lambda: ctx() + f" {len(got_comments)} comments want {len(want[2])}", f"detect:{api}:comment-count")
+        R.outcome(offset >= 150_000, len(got_comments))
+    finally:
+        if tmp:
+            shutil.rmtree(tmp, ignore_errors=True)
+
+
 def gen_encodings():
     for di in range(len(ENC_DOCS)):
         for wenc in ENCODINGS:
@@ -860,6 +908,10 @@ def spaces(tier, seed):
                                                                                         "; k=1 row full product lead x sep x trail x float spelling on skeletons <= 3 lines; k=2 rows single-dimension pairs"),
                          "lead": LEAD, "sep": SEP, "trail": TRAIL, "float_spellings": FSPELL, "comments": COMMENTS, "blanks": BLANKS}),
         Space.of("encodings", gen_encodings, check_encoding, bounds={"docs": len(ENC_DOCS), "encodings": ENCODINGS}),
+        Space.of("detect-encoding", lambda: ([o, k, a] for o in (DETECT_OFFSETS if tier != "quick" else DETECT_OFFSETS[:-1])
+                                             for k, a in (("path", "read_swc"), ("bytes", "read_swc"), ("path", "from_swc"), ("path", "population"))), check_detect,
+                 bounds={"first_non_ascii_byte_at": DETECT_OFFSETS if tier != "quick" else DETECT_OFFSETS[:-1], "sources": ["path", "bytes"], "encoding": "detect",
+                         "note": "valid UTF-8 only; comment TEXT under a guessed encoding is not asserted"}, case_timeout=600.0),
         Space.of("faults", lambda: gen_faults(tier), check_fault,
                  bounds={"base_docs": BASE_DOCS, "menu": [m[0] for m in MENU], "k1": "every slot x whole menu x " + str(SRC_APIS),
                          "k2_docs": ["rows2", "rows3"] if quick else ["rows2", "rows3", "rows5", "mixed"],
